@@ -434,6 +434,12 @@ class BandwidthRateTracker:
             self._last_time = time_at_consumption
             self._current_rate = 0.0
             return
+        if time_at_consumption <= self._last_time:
+            # No time has passed since the last recorded consumption, so
+            # there is no finite rate to learn from this one. Recording the
+            # infinite rate would stick in the moving average forever and
+            # throttle every later request, no matter how small.
+            return
         self._current_rate = self._calculate_exponential_moving_average_rate(
             amt, time_at_consumption
         )
